@@ -113,6 +113,14 @@ Example C01_ex_line :
   fst (run_chain ex_settings ex_chain 1%Z ex_ops [104;105]) <> None.
 Proof. vm_compute. discriminate. Qed.
 
+(* the translation evaluates: the source's own answers on concrete inputs (vm_compute) *)
+(* h, quote, a lone 0xE9 (ill-formed), newline, a valid e-acute, DEL *)
+Example C01_source_ex_string : JsonSrc.AppendString [123] [104;34;233;10;195;169;127] =
+  GoSem.Ok [123; 34; 104; 92; 34; 92; 117; 102; 102; 102; 100; 92; 110; 195; 169; 92; 117; 48; 48; 55; 102; 34].
+Proof. vm_compute. reflexivity. Qed.
+Example C01_source_ex_key : JsonSrc.AppendKey [123] [107] = GoSem.Ok [123;34;107;34;58] /\ JsonSrc.AppendKey [123;49] [107] = GoSem.Ok [123;49;44;34;107;34;58] /\ JsonSrc.AppendKey [] [107] = GoSem.Panic.
+Proof. vm_compute. repeat split. Qed.
+
 Print Assumptions C01_event_line.
 Print Assumptions C01_string_escaping.
 Print Assumptions C01_AppendKey_shape.
